@@ -26,6 +26,22 @@ def download_dirs(files, build_dir="build"):
                     seen.setdefault(sd, ident)
     return set(seen), clash
 
+def download_dir_owners(files, build_dir="build"):
+    """download directory -> names of the modules that download into it"""
+    import os
+    out = {}
+    for fname, docs in files.items():
+        rel = os.path.dirname(fname) or "."
+        for d in docs:
+            for key in ("modules", "apps"):
+                for m in d.get(key) or []:
+                    dl = m.get("download")
+                    if not dl: continue
+                    name = m.get("name") or rel
+                    sd = norm(build_dir + "/dl/" + (dl["dldir"] if dl.get("dldir") else rel + "/" + name))
+                    out.setdefault(sd, []).append(name)
+    return out
+
 def json_id(m):
     import json
     return json.dumps({k: v for k, v in m.items() if k != "context"}, sort_keys=True)
@@ -139,11 +155,17 @@ def link_sources(parsed):
     return out
 
 
-def download_order(parsed, files, build_dir="build"):
+def download_order(parsed, files, build_dir="build", builds=None):
     """C19, downloads: a compiled source that lies inside the download directory of a downloading module is itself the
     output of a phony statement that waits for a tag file of that directory (so ninja does not look for it before the
     download ran).  Directories are compared by path component."""
     dirs, _ = download_dirs(files, build_dir)
+    if builds is not None:
+        # a statement of the file cannot be attributed to one build (objects are shared): only the download
+        # directories of modules that are selected in EVERY configured build are demanded — then whichever build
+        # compiles the source also runs the download
+        owners = download_dir_owners(files, build_dir)
+        dirs = [d for d in dirs if builds and all(owners.get(d) and (set(owners[d]) & set(b.get("order") or b.get("modules") or [])) for b in builds)]
     bad = []
     producers = {}
     for b in parsed["builds"]:
